@@ -651,6 +651,15 @@ func (m *Machine) pureExternal(c *Config, call ssa.CallInstruction, full string,
 		m.bindCallResult(c, call, nil)
 		return c, nil
 	}
+	if full == "(reflect.Value).Interface" && len(args) == 1 {
+		// reflect precondition: a value obtained from a struct field can be read only if the field is exported.
+		// (Other receivers - map keys, slice elements, values made by reflect.ValueOf - are readable whenever
+		// their container was.)  Checked in the encoder, where no recover stands behind it.
+		if rt, ok := args[0].(Term); ok && strings.HasPrefix(rt.S, "(X._reflect.Value_.Field.r0 ") && strings.Contains(funcKey(c.top.fn), "(*Encoder)") {
+			m.syms.declareFun("X._reflect.Value_.CanInterface.r0", []Sort{SRV}, SBool)
+			m.safety(c, "safe-reflect", app(SBool, "X._reflect.Value_.CanInterface.r0", rt), call.Pos())
+		}
+	}
 	var ats []Term
 	functional := !allocExternals[full]
 	for _, a := range args {
